@@ -220,10 +220,10 @@ fn divided_at<F: AnyF>(l: &Rc<SweepEvent<F>>, r: &Rc<SweepEvent<F>>, at: Coord<F
     ok
 }
 
-pub fn possible_intersection_contract_body<F: AnyF, S: Src>(s: &mut S) {
+/// `kind` (concrete per harness): what the intersection routine answers -- 0 None, 1 Point, 2 Overlap
+pub fn possible_intersection_contract_body<F: AnyF, S: Src>(s: &mut S, kind: u8) {
     let (p1, q1, p2, q2) = (pt::<F, S>(s), pt::<F, S>(s), pt::<F, S>(s), pt::<F, S>(s));
     let (s1, s2) = (s.bool(), s.bool());
-    let kind = s.u8() % 3;
     let ip = pt::<F, S>(s);
     let bump = Coord { x: ip.x.nextafter(true), y: ip.y };
     s.assume(bump.x.is_finite());
@@ -248,10 +248,10 @@ pub fn possible_intersection_contract_body<F: AnyF, S: Src>(s: &mut S) {
         PI_KIND = kind;
         PI_PT = (ip.x.into(), ip.y.into());
     }
-    vcover!(kind == 1 && ip != p1 && ip != q1 && ip != p2 && ip != q2 && p1 != p2 && q1 != q2, "crossing-both-divided");
-    vcover!(kind == 1 && ip == p2 && p1 != p2 && q1 != q2, "t-junction");
-    vcover!(kind == 2 && s1 != s2 && p1 == p2 && q1 != q2, "overlap-left-coincide");
-    vcover!(kind == 2 && s1 != s2 && p1 != p2 && q1 != q2, "overlap-general");
+    vcover!(kind != 1 || (ip != p1 && ip != q1 && ip != p2 && ip != q2 && p1 != p2 && q1 != q2), "crossing-both-divided");
+    vcover!(kind != 1 || (ip == p2 && p1 != p2 && q1 != q2), "t-junction");
+    vcover!(kind != 2 || (s1 != s2 && p1 == p2 && q1 != q2), "overlap-left-coincide");
+    vcover!(kind != 2 || (s1 != s2 && p1 != p2 && q1 != q2), "overlap-general");
 
     let mut queue: BinaryHeap<Rc<SweepEvent<F>>> = BinaryHeap::new();
     let n0 = pushed_count();
@@ -329,23 +329,22 @@ mod proofs_pi {
     use super::super::order::orient2d_contract;
     use super::*;
 
-    #[kani::proof]
-    #[kani::stub(robust::orient2d, orient2d_contract)]
-    #[kani::stub(std::collections::BinaryHeap::push, heap_push_recorder)]
-    #[kani::stub(super::super::super::segment_intersection::intersection, intersection_contract)]
-    #[kani::stub(super::super::super::divide_segment::divide_segment, divide_segment_by_contract)]
-    #[kani::unwind(8)]
-    fn possible_intersection_contract_f64() {
-        possible_intersection_contract_body::<f64, _>(&mut KaniSrc);
+    macro_rules! pi_harness {
+        ($name:ident, $f:ty, $kind:expr) => {
+            #[kani::proof]
+            #[kani::stub(robust::orient2d, orient2d_contract)]
+            #[kani::stub(std::collections::BinaryHeap::push, heap_push_recorder)]
+            #[kani::stub(super::super::super::segment_intersection::intersection, intersection_contract)]
+            #[kani::stub(super::super::super::divide_segment::divide_segment, divide_segment_by_contract)]
+            #[kani::unwind(8)]
+            fn $name() {
+                possible_intersection_contract_body::<$f, _>(&mut KaniSrc, $kind);
+            }
+        };
     }
-
-    #[kani::proof]
-    #[kani::stub(robust::orient2d, orient2d_contract)]
-    #[kani::stub(std::collections::BinaryHeap::push, heap_push_recorder)]
-    #[kani::stub(super::super::super::segment_intersection::intersection, intersection_contract)]
-    #[kani::stub(super::super::super::divide_segment::divide_segment, divide_segment_by_contract)]
-    #[kani::unwind(8)]
-    fn possible_intersection_contract_f32() {
-        possible_intersection_contract_body::<f32, _>(&mut KaniSrc);
-    }
+    pi_harness!(possible_intersection_none_f64, f64, 0);
+    pi_harness!(possible_intersection_point_f64, f64, 1);
+    pi_harness!(possible_intersection_overlap_f64, f64, 2);
+    pi_harness!(possible_intersection_point_f32, f32, 1);
+    pi_harness!(possible_intersection_overlap_f32, f32, 2);
 }
